@@ -321,6 +321,9 @@ func (x *X) decCall(d *Dec, t *ssa.Call, add func(Atom)) {
 	if x.inlineReader(t, f, add) {
 		return
 	}
+	if x.inlineCursor(d, t, f, add) {
+		return
+	}
 	// func(data, offset) (T, newOffset, error) called on the whole buffer
 	var offArg ssa.Value
 	whole := false
@@ -395,15 +398,18 @@ func (x *X) cursorCellOf(fn *ssa.Function) ssa.Value {
 // where a value read from the wire ends up
 
 type destInfo struct {
-	field string
-	via   string
-	local bool
+	field  string
+	via    string
+	local  bool
+	ret    bool // the value is returned as result 0
+	retVia string
 }
 
 func (x *X) setDest(a *Atom, v ssa.Value) {
 	di := x.dest(v)
 	a.Field, a.Via = di.field, di.via
-	a.Local = di.field == "" && di.local
+	a.ret, a.retVia = di.ret && di.field == "", di.retVia
+	a.Local = di.field == "" && di.local && !a.ret
 	if a.Field == "" {
 		a.Expr = x.exprString(v, 0)
 	}
@@ -474,6 +480,10 @@ func (x *X) dest(v ssa.Value) destInfo {
 				if kind, _, _ := binCall(y); kind != "" {
 					continue
 				}
+				if copiesBytes(cc.StaticCallee()) {
+					work = append(work, item{y, it.via})
+					continue
+				}
 				via := it.via
 				if f := cc.StaticCallee(); f != nil {
 					if via == "" {
@@ -483,6 +493,10 @@ func (x *X) dest(v ssa.Value) destInfo {
 					}
 				}
 				work = append(work, item{y, via})
+			case *ssa.Return:
+				if len(y.Results) > 1 && y.Results[0] == it.v && !out.ret {
+					out.ret, out.retVia = true, it.via
+				}
 			case *ssa.BinOp, *ssa.If, *ssa.IndexAddr, *ssa.Slice, *ssa.MakeSlice, *ssa.Phi:
 				out.local = true
 			}
@@ -695,6 +709,7 @@ func (x *X) repeatDec(l *Loop, body []Atom) Atom {
 		} else {
 			a.Count = e
 		}
+		a.Count += x.iterStart(l.Header)
 	}
 	a.Over = sectionOf(body)
 	hb := l.Header
@@ -743,6 +758,12 @@ func (x *X) repeatDec(l *Loop, body []Atom) Atom {
 		}
 		if agree {
 			a.Out = outS
+			// a rotated loop (entry test, test at the latch) leaves through a φ that
+			// joins the cursor at entry (no iteration) with the cursor at the latch
+			if ex := x.exitPhi(l, *a.Off, *outS); ex != nil {
+				end := SymT(ex)
+				a.End = &end
+			}
 		}
 		return a
 	}
@@ -795,6 +816,59 @@ func (x *X) repeatDec(l *Loop, body []Atom) Atom {
 		break
 	}
 	return a
+}
+
+// iterStart: " from k" when the counted loop headed by hb does not start at 0.
+func (x *X) iterStart(hb *ssa.BasicBlock) string {
+	it, ok := x.Iter(hb)
+	if !ok {
+		return ""
+	}
+	if it.From != nil {
+		return " from " + x.exprString(it.From, 0)
+	}
+	if it.FromK != 0 {
+		return fmt.Sprintf(" from %d", it.FromK)
+	}
+	return ""
+}
+
+// exitPhi: an int φ outside loop l, in a block the loop exits to, every edge of
+// which carries either the cursor on entry (edges from outside the loop) or
+// the cursor at the latch (edges from inside).
+func (x *X) exitPhi(l *Loop, entry, out Sym) *ssa.Phi {
+	for b := range l.Blocks {
+		for _, s := range b.Succs {
+			if l.Blocks[s] {
+				continue
+			}
+			for _, in := range s.Instrs {
+				phi, ok := in.(*ssa.Phi)
+				if !ok {
+					break
+				}
+				if bt, isB := phi.Type().Underlying().(*types.Basic); !isB || bt.Kind() != types.Int {
+					continue
+				}
+				good, fromLoop := true, false
+				for i, p := range s.Preds {
+					v := x.Sym(phi.Edges[i])
+					if l.Blocks[p] {
+						fromLoop = true
+						if !v.Equal(out) {
+							good = false
+						}
+					} else if !v.Equal(entry) {
+						good = false
+					}
+				}
+				if good && fromLoop {
+					return phi
+				}
+			}
+		}
+	}
+	return nil
 }
 
 // sectionOf: the slice field the elements built by a loop body belong to
@@ -992,7 +1066,7 @@ func (d *Dec) Check() (issues []Issue, links, guards int) {
 		if a.Kind != "fixed" && a.Kind != "bytes" {
 			continue
 		}
-		if a.End == nil {
+		if a.End == nil || a.From != nil {
 			continue
 		}
 		// nearest dominating guard of the same function whose success edge dominates the read
@@ -1086,13 +1160,17 @@ func (d *Dec) allAtoms() []flatAtom {
 		}
 	}
 	// de-duplicate closure atoms analysed at several call sites
-	seen := map[ssa.Instruction]bool{}
+	type dkey struct {
+		in      ssa.Instruction
+		inlined bool
+	}
+	seen := map[dkey]bool{}
 	var uniq []flatAtom
 	for _, fa := range out {
 		if fa.a.At != nil && fa.a.Kind != "repeat" {
-			key := fa.a.At
+			key := dkey{fa.a.At, fa.a.From != nil}
 			if v, ok := fa.a.Val.(ssa.Instruction); ok {
-				key = v
+				key.in = v
 			}
 			if seen[key] {
 				continue
@@ -1227,4 +1305,200 @@ func (x *X) inlineReader(call *ssa.Call, f *ssa.Function, add func(Atom)) bool {
 	x.setDest(&na, call)
 	add(na)
 	return true
+}
+
+// root returns the outermost extractor of the tree this one belongs to.
+func (x *X) root() *X {
+	for x.Parent != nil {
+		x = x.Parent
+	}
+	return x
+}
+
+func (x *X) isUnit(f *ssa.Function) bool {
+	for y := x; y != nil; y = y.Parent {
+		if y.Units != nil {
+			return y.Units[f]
+		}
+	}
+	return false
+}
+
+// inlineCursor: a call, on the whole input buffer, of an in-module cursor
+// helper func(data []byte, off int) (T, newOff int, err error) that is not one
+// of the codec units compared as a whole (an extracted "read the name" step)
+// is read as the helper's own reads, placed at the caller's cursor: the
+// helper is analysed as a decoder, its extents are rewritten over the caller's
+// arguments, the value it returns is followed to the field the caller stores
+// it into, and the new offset it returns becomes the linear form of the
+// caller's result. The helper's length checks are checked in the helper.
+func (x *X) inlineCursor(d *Dec, call *ssa.Call, f *ssa.Function, add func(Atom)) bool {
+	cc := call.Common()
+	if f.Blocks == nil || cc.IsInvoke() || len(cc.Args) != len(f.Params) || x.isUnit(f) || x.root().Units == nil {
+		return false
+	}
+	res := f.Signature.Results()
+	if res.Len() != 3 || types.TypeString(res.At(2).Type(), nil) != "error" {
+		return false
+	}
+	if b, ok := res.At(1).Type().Underlying().(*types.Basic); !ok || b.Kind() != types.Int {
+		return false
+	}
+	depth := 0
+	for y := x; y != nil; y = y.Parent {
+		depth++
+		if y.Fn == f {
+			return false
+		}
+	}
+	if depth > 4 {
+		return false
+	}
+	bufIdx, offIdx := -1, -1
+	for i, a := range cc.Args {
+		if isByteSeq(a.Type()) {
+			root, off, okr := x.bufRoot(a)
+			if !okr || !x.isInput(root) || bufIdx >= 0 {
+				return false
+			}
+			if k, isK := off.Const(); !isK || k != 0 {
+				return false
+			}
+			if _, isSlice := StripConv(a).(*ssa.Slice); isSlice {
+				return false
+			}
+			bufIdx = i
+			continue
+		}
+		if b, ok := a.Type().Underlying().(*types.Basic); ok && b.Kind() == types.Int && offIdx < 0 && bufIdx >= 0 {
+			offIdx = i
+		}
+	}
+	if bufIdx < 0 || offIdx < 0 {
+		return false
+	}
+	child := newX(x.W, f)
+	child.Parent = x
+	for i, p := range f.Params {
+		if i == bufIdx || i == offIdx {
+			continue
+		}
+		arg := x.res(cc.Args[i])
+		switch deref(p.Type()).Underlying().(type) {
+		case *types.Struct:
+			if bp, ok := x.basePath(arg); ok {
+				child.Roots[p] = bp
+				continue
+			}
+		}
+		fd, e, _, _ := x.desc(arg)
+		if fd == "" {
+			fd = e
+		}
+		child.Names[p] = fd
+	}
+	child.findRoots()
+	sub := child.Decode()
+	if len(sub.Atoms) == 0 || len(sub.RetOff) == 0 || len(sub.RetOff) != len(sub.Rets) {
+		return false
+	}
+	for _, r := range sub.RetOff[1:] {
+		if !r.Equal(sub.RetOff[0]) {
+			return false
+		}
+	}
+	for _, a := range sub.Atoms {
+		switch a.Kind {
+		case "fixed", "bytes", "nested", "repeat":
+			if a.Off == nil || a.End == nil {
+				return false
+			}
+		default:
+			return false
+		}
+	}
+	sigma := func(s Sym) Sym {
+		out := SymK(s.K)
+		for t, k := range s.T {
+			if p, isP := t.(*ssa.Parameter); isP && p.Parent() == f {
+				for i, q := range f.Params {
+					if q == p {
+						out = out.Add(x.Sym(cc.Args[i]).Scale(k))
+					}
+				}
+				continue
+			}
+			out = out.Add(SymT(t).Scale(k))
+		}
+		return out
+	}
+	// where the caller puts result 0
+	var valDest destInfo
+	if call.Referrers() != nil {
+		for _, r := range *call.Referrers() {
+			ex, ok := r.(*ssa.Extract)
+			if !ok {
+				continue
+			}
+			switch ex.Index {
+			case 0:
+				valDest = x.dest(ex)
+			case 1:
+				x.symOf[ex] = sigma(sub.RetOff[0])
+			}
+		}
+	}
+	atoms := sub.Atoms
+	if valDest.field != "" {
+		atoms = substAtoms(atoms, "ret0", valDest.field)
+	}
+	for i, a := range atoms {
+		na := a
+		o, e := sigma(*a.Off), sigma(*a.End)
+		na.Off, na.End = &o, &e
+		na.At = call
+		na.From = sub.X
+		if sub.Atoms[i].ret {
+			na.Field = valDest.field
+			na.Via = a.retVia
+			if valDest.via != "" {
+				if na.Via != "" {
+					na.Via += ","
+				}
+				na.Via += valDest.via
+			}
+			na.Local = false
+			if na.Field == "" {
+				na.Local = valDest.local
+			}
+		}
+		add(na)
+	}
+	d.Subs = append(d.Subs, sub)
+	return true
+}
+
+// stdName renders a callee as "pkgpath.Name" (the generic origin for an
+// instantiation), "" for methods and closures.
+func stdName(f *ssa.Function) string {
+	if f == nil {
+		return ""
+	}
+	if o := f.Origin(); o != nil {
+		f = o
+	}
+	if f.Pkg == nil || f.Signature.Recv() != nil {
+		return ""
+	}
+	return f.Pkg.Pkg.Path() + "." + f.Name()
+}
+
+// copiesBytes: the function returns a copy of (or the very) byte sequence it
+// is given: the bytes on the wire pass through unchanged.
+func copiesBytes(f *ssa.Function) bool {
+	switch stdName(f) {
+	case "bytes.Clone", "slices.Clone", "strings.Clone", "slices.Clip", "slices.Grow":
+		return true
+	}
+	return false
 }
